@@ -328,7 +328,7 @@ func runOp(op *Sx) *Sx {
 	}
 	a := op.L[1:]
 	switch op.L[0].Y {
-	case "dec":
+	case "dec", "inflated":
 		if len(a) == 2 && a[0].K == 'y' && a[1].K == 'b' {
 			return decByName(a[0].Y, append([]byte(nil), a[1].B...))
 		}
